@@ -240,9 +240,90 @@ def hist (kindS gbS lenS ctorS opsS obs : String) : Verdict :=
     { model, spec }
   | _, _, _, _, _ => { model := "bad-arg" }
 
+/-! ## several live containers of one kind and length
+
+`pal.multi <kind> <gb> <len> <ctor>|<ctor>[|<ctor>] <ops> => <obs>`
+  ops (comma separated): `<k>@<op>` — `<op>` of `pal.hist` applied to container `k`
+  obs (comma separated): first the constructors' `ok` joined by `|` (any `panic`: nothing follows), then one per
+    op: `<op observation>/<all of container 0>/<all of container 1>[/…]` — EVERY container is read after every
+    step.  The property is per container: an operation on one of them changes nothing in the others. -/
+
+def parseMultiOp (s : String) : Option (Nat × Op) :=
+  match s.splitOn "@" with
+  | [k, o] => do let k ← k.toNat?; let o ← parseOp o; pure (k, o)
+  | _ => none
+
+def allOf (c : Container) : String :=
+  match collect c c.data.len.toNat with
+  | some xs => showAll xs
+  | none => "panic"
+
+def runMulti (cs : List Container) : List (Nat × Op) → List String
+  | [] => []
+  | (k, op) :: rest =>
+    match cs[k]? with
+    | none => ["bad-index"]
+    | some c =>
+      let r := stepModel c op
+      let cs' := applyAt cs k (fun _ => r.2)
+      "/".intercalate (r.1 :: cs'.map allOf) :: runMulti cs' rest
+
+def specMulti (rs : List Ref) : List (Nat × Op) → List String → Option String
+  | [], _ => none
+  | _ :: _, [] => none
+  | (k, op) :: ops, o :: obs =>
+    match rs[k]?, o.splitOn "/" with
+    | some r, oo :: alls =>
+      match specStep r op oo with
+      | (some why, _) => some s!"container {k}: {why}"
+      | (none, r') =>
+        let rs' := rs.set k r'
+        if alls.length != rs'.length then some "one reading per container expected" else
+        let bad := (List.zip (List.range rs'.length) (List.zip rs' alls)).findSome? fun (j, (rj, a)) =>
+          match (specStep rj .all a).1 with
+          | some why => some s!"container {j} after an operation on container {k}: {why}"
+          | none => none
+        match bad with
+        | some why => some why
+        | none => specMulti rs' ops obs
+    | _, _ => some "unparseable observation"
+
+def multi (kindS gbS lenS ctorsS opsS obs : String) : Verdict :=
+  let kind? : Option (PalKind × Spec.PKind) :=
+    if kindS == "blocks" then some (.blocks, .blocks) else if kindS == "biomes" then some (.biomes, .biomes) else none
+  let ops? : Option (List (Nat × Op)) := if opsS == "-" then some [] else (opsS.splitOn ",").mapM parseMultiOp
+  match kind?, gbS.toInt?, lenS.toInt?, (ctorsS.splitOn "|").mapM parseCtor, ops? with
+  | some (mk, sk), some gb, some length, some cts, some ops =>
+    let cfg : PalCfg := { kind := mk, gbits := gb }
+    let cs? : Option (List Container) := cts.mapM fun ct =>
+      match ct with
+      | .new d => some (Container.new cfg length d)
+      | .wd data pal => match Container.withData cfg length data pal with
+        | .ok c => some c
+        | _ => none
+    let ctorObs := "|".intercalate (cts.map fun _ => "ok")
+    let model : String :=
+      match cs? with
+      | some cs => ",".intercalate (ctorObs :: runMulti cs ops)
+      | none => "panic"
+    let toks := obs.splitOn ","
+    let spec : Option String :=
+      match toks with
+      | [] => some "empty observation"
+      | o :: rest =>
+        let cobs := o.splitOn "|"
+        if cobs.length != cts.length then (if o == "panic" then none else some "one constructor result per container expected") else
+        let rs := (List.zip cts cobs).map fun (ct, co) => specCtor sk gb.toNat length ct co
+        match rs.findSome? (·.1) with
+        | some why => some why
+        | none => if cobs.all (· == "ok") then specMulti (rs.map (·.2)) ops rest else none
+    { model, spec }
+  | _, _, _, _, _ => { model := "bad-arg" }
+
 def handle (op : String) (args : List String) (obs : String) : Option Verdict :=
   match op, args with
   | "pal.hist", [k, gb, n, ct, ops] => some (hist k gb n ct ops obs)
+  | "pal.multi", [k, gb, n, cts, ops] => some (multi k gb n cts ops obs)
   | _, _ => none
 
 end Driver.C12
